@@ -10,7 +10,8 @@ from vf.gen import composite
 ID = "C18"
 RULE = ("case = ordered list of 2-3 sources drawn from the golden tests that need no private command-line flags "
         "plus generated failing sources (unterminated MACRO / IF / SECTION / STRUCT / SAVE / PHASE / EXPECT / "
-        "REPT / SWITCH, error storm, CPU left switched); fixed cases: a covering design in which every golden test "
+        "REPT / SWITCH, error storm, CPU left switched, every ON/OFF and ASSUME switch of a family left in its "
+        "non-default position - these in front of EVERY golden test); fixed cases: a covering design in which every golden test "
         "is predecessor and successor once and every failing-predecessor kind precedes ~25 different tests; "
         "plus every test followed by itself; non-trivial = every multi-file run (each has a predecessor whose "
         "state could leak); distinct by the ordered name tuple")
@@ -36,6 +37,25 @@ FAILERS = {
     "cpu_left": "\tcpu 320c30\n\tsegment data\n\trelaxed on\n\tradix 8\n\tintsyntax +$hex\n\toutradix 2\n\tmacexp off\n\tbogus\n",
     "defs_left": "\tcpu 68000\nfn\tfunction a,a+1\nmm\tmacro\n\tnop\n\tendm\nval\tset 5\n\tpushv stk,val\n\tcharset 65,66\n\tcodepage cp2\n\tillegalop\n",
 }
+# predecessors that leave every mode switch they can reach in its non-default position and then fail
+FAILERS.update({
+    "modes_glob": "\tcpu z80\n\tdottedstructs on\n\trelaxed on\n\tcompmode on\n\tmacexp_dft off\n\tlisting off\n"
+                  "\tmaxnest 5\n\tnestmax 7\n\toutradix 8\n\tz80syntax exclusive\n\tfrob\n",
+    "modes_68k": "\tcpu 68040\n\tpadding off\n\tsupmode on\n\tfpu on\n\tpmmu on\n\tfullpmmu off\n\tcompmode on\n\tfrob\n",
+    "modes_cf": "\tcpu mcf5407\n\tpadding off\n\tsupmode on\n\tfpu on\n\tfrob\n",
+    "modes_51": "\tcpu 80c251\n\tsrcmode on\n\tbigendian on\n\tsegment data\n\tfrob\n",
+    "modes_z380": "\tcpu z380\n\textmode on\n\tlwordmode on\n\tfrob\n",
+    "modes_avr": "\tcpu atmega8\n\twrapmode on\n\tpacking on\n\tsegment data\n\tfrob\n",
+    "modes_sh": "\tcpu sh7600\n\tcompliterals on\n\tsupmode on\n\tpadding off\n\tfrob\n",
+    "modes_msp": "\tcpu msp430\n\tpadding off\n\tfrob\n",
+    "modes_8086": "\tcpu 80186\n\tassume cs:nothing,ds:code,es:data\n\tfpu on\n\tfrob\n",
+    "modes_6809": "\tcpu 6309\n\tassume dpr:$80\n\tplainbase on\n\tfrob\n",
+    "modes_7700": "\tcpu 65816\n\tassume m:1,x:1,dpr:$1234,dt:$12,pg:$34\n\tfrob\n",
+    "modes_78k4": "\tcpu 784026\n\tassume rss:1,location:0fh\n\tfrob\n",
+    "modes_st9": "\tcpu st9020\n\tassume rp:1,dp:1\n\tfrob\n",
+    "modes_tlcs900": "\tcpu 96c141\n\tmaxmode on\n\tsupmode on\n\tfrob\n",
+})
+MODE_FAILERS = sorted(k for k in FAILERS if k.startswith("modes_"))
 
 
 def budget(tier):
@@ -175,6 +195,10 @@ def fixed_cases(tier):
         out.append(dict(files=["!" + fk[i % len(fk)], pt[(i * 5 + 1) % n]]))
     for i in range(0, n, 3):
         out.append(dict(files=[pt[i], "!" + fk[(i // 3) % len(fk)], pt[(i * 11 + 2) % n]]))
+    # every mode-leaving predecessor in front of every golden test (cheap: ~3 asl runs of a few ms each)
+    for mk in MODE_FAILERS:
+        for t in pt:
+            out.append(dict(files=["!" + mk, t]))
     return out
 
 
